@@ -175,6 +175,10 @@ func Generate(r *fw.Rand) *App {
 	if r.Chance(1, 2) {
 		a.EnvURL = "https://shop.example.com/v1"
 	}
+	// Two constructs make the Swagger document unimportable (FINDINGS.md K6, K8), which would
+	// silence the Swagger round trip; they are confined to a quarter of the applications each.
+	primReturns := r.Chance(1, 4)
+	bareParams := r.Chance(1, 4)
 
 	// ---- types
 	nT := r.Range(2, 5)
@@ -320,7 +324,7 @@ func Generate(r *fw.Rand) *App {
 		}
 		nh := []int{0, 0, 1, 2}[r.Intn(4)]
 		for _, hn := range fresh(headerNames, nh) {
-			h := Param{Name: hn, Prim: r.Pick([]string{"string", "string", "int", "bool"}), Opt: r.Chance(1, 3), NameAttr: !r.Chance(1, 6)}
+			h := Param{Name: hn, Prim: r.Pick([]string{"string", "string", "int", "bool"}), Opt: r.Chance(1, 3), NameAttr: !(bareParams && r.Chance(1, 2))}
 			if r.Chance(1, 2) {
 				h.Legacy = "required"
 				if h.Opt {
@@ -330,7 +334,7 @@ func Generate(r *fw.Rand) *App {
 			ep.Header = append(ep.Header, h)
 		}
 		if ep.Method != "GET" && ep.Method != "DELETE" && r.Chance(3, 4) {
-			ep.Body = &Body{Name: fresh(bodyNames, 1)[0], Ref: r.Pick(tn), Opt: r.Chance(1, 6), NameAttr: r.Chance(1, 2), MediaType: r.Chance(1, 3)}
+			ep.Body = &Body{Name: fresh(bodyNames, 1)[0], Ref: r.Pick(tn), Opt: r.Chance(1, 6), NameAttr: !(bareParams && r.Chance(1, 2)), MediaType: r.Chance(1, 3)}
 		}
 		// make sure the parameter map has at least two entries most of the time
 		if len(ep.PathParams())+len(ep.Query)+len(ep.Header) < 2 && r.Chance(3, 4) {
@@ -361,7 +365,7 @@ func Generate(r *fw.Rand) *App {
 				rt.Coll = "sequence"
 			case k < 6:
 				rt.Coll = "set"
-			case k < 8:
+			case k < 9 && primReturns:
 				rt.Ref, rt.Prim = "", r.Pick([]string{"string", "bool", "date", "datetime"})
 			}
 			ep.Rets = append(ep.Rets, rt)
@@ -527,8 +531,8 @@ func Render(a *App) string {
 
 type Stats struct {
 	Tuples, Enums, Fields, RefFields, Eps, Params, Rets int
-	MaxParams, MaxRets                                 int
-	Constructs                                         []string
+	MaxParams, MaxRets                                  int
+	Constructs                                          []string
 }
 
 func Measure(a *App) Stats {
